@@ -1,9 +1,9 @@
 (* C16 — field arithmetic matches Circom's semantics for all operands and never
    panics.  Property theorems only: each is closed by [exact] of a lemma of
    Proofs.FieldProofs, followed by Print Assumptions. *)
-From Coq Require Import ZArith Znumtheory.
+From Coq Require Import ZArith Znumtheory Lia.
 Require Import Model.Base Model.Field Model.Ir Model.Propagate Model.FieldDispatch Model.FieldPow.
-Require Import Spec.FieldSpec Spec.DispatchSpec Proofs.FieldProofs Proofs.DispatchProofs Proofs.DispatchLoop Proofs.FieldPowProofs.
+Require Import Spec.FieldSpec Spec.DispatchSpec Proofs.FieldProofs Proofs.DispatchProofs Proofs.DispatchLoop Proofs.FieldPowProofs Proofs.FieldLaws.
 Local Open Scope Z_scope.
 
 (* every operation except division: the mirror computes the documented value;
@@ -206,6 +206,65 @@ Theorem C16_modpow_steps_bound : forall e, 0 <= e ->
   17 <= (if e =? 0 then 17 else 80 * ((bits e + 63) / 64) + 13) <= 2 * bits e + 93.
 Proof. exact monty_steps_bound. Qed.
 Print Assumptions C16_modpow_steps_bound.
+
+(* ---- the operations together: algebraic laws of the mirror itself ---- *)
+
+(* for EVERY modulus p > 0 and ALL integers (not only field elements) the reducing
+   functions add / mul / sub / prefix_sub form a commutative ring whose elements are the
+   values of `modulus`: the laws speak about the interplay of the mirror's functions, not
+   about one operation against the specification *)
+Theorem C16_ring_laws : forall p, 0 < p -> forall a b c,
+  add a b p = add b a p /\
+  mul a b p = mul b a p /\
+  add (add a b p) c p = add a (add b c p) p /\
+  mul (mul a b p) c p = mul a (mul b c p) p /\
+  mul a (add b c p) p = add (mul a b p) (mul a c p) p /\
+  add a 0 p = modulus a p /\
+  mul a 1 p = modulus a p /\
+  add a (prefix_sub a p) p = 0 /\
+  sub a b p = add a (prefix_sub b p) p /\
+  add (sub a b p) b p = modulus a p /\
+  sub (add a b p) b p = modulus a p.
+Proof. exact field_ring_laws. Qed.
+Print Assumptions C16_ring_laws.
+
+(* ... a field for a prime modulus: division by a non-zero element succeeds and is the
+   two-sided inverse of multiplication *)
+Theorem C16_div_mul_cancel : forall a b p,
+  prime p -> 2 < p -> 0 <= a < p -> 0 <= b < p -> b <> 0 ->
+  exists c, div a b p = Ok c /\ mul c b p = a /\ div (mul a b p) b p = Ok a.
+Proof. exact div_mul_cancel. Qed.
+Print Assumptions C16_div_mul_cancel.
+
+(* the six comparison operators are mutually consistent: exactly one of < = > answers 1,
+   <= and >= are the negations of > and <, != of ==, and a > b is b < a *)
+Theorem C16_comparison_trichotomy : forall a b p,
+  2 < p -> 0 <= a < p -> 0 <= b < p ->
+  lesser a b p + eq a b p + greater a b p = 1 /\
+  lesser_eq a b p = 1 - greater a b p /\
+  greater_eq a b p = 1 - lesser a b p /\
+  not_eq a b p = 1 - eq a b p /\
+  greater a b p = lesser b a p.
+Proof. exact comparison_trichotomy. Qed.
+Print Assumptions C16_comparison_trichotomy.
+
+(* ... and `<` is a strict order for every modulus and all integers *)
+Theorem C16_lesser_strict_order : forall a b c p,
+  lesser a a p = 0 /\ (lesser a b p = 1 -> lesser b c p = 1 -> lesser a c p = 1).
+Proof. intros a b c p. split; [exact (lesser_irreflexive a p) | exact (lesser_transitive a b c p)]. Qed.
+Print Assumptions C16_lesser_strict_order.
+
+(* non-vacuity: p = 7, where 5 is the signed representative -2, so 5 < 3 < 4 *)
+Example C16_laws_witnesses :
+  prime 7 /\ div 3 5 7 = Ok 2 /\ mul 2 5 7 = 3 /\ div (mul 3 5 7) 5 7 = Ok 3 /\
+  lesser 5 3 7 = 1 /\ lesser 3 4 7 = 0 /\ greater 3 4 7 = 1 /\ eq 3 4 7 = 0 /\
+  add (-9) 30 7 = 0 /\ sub 2 5 7 = 4 /\ add 2 (prefix_sub 5 7) 7 = 4.
+Proof.
+  split; [|vm_compute; repeat split; reflexivity].
+  apply prime_intro; [lia|]. intros n Hn.
+  assert (n = 1 \/ n = 2 \/ n = 3 \/ n = 4 \/ n = 5 \/ n = 6) as [->|[->|[->|[->|[->| ->]]]]] by lia;
+    apply Zgcd_1_rel_prime; reflexivity.
+Qed.
 
 (* non-vacuity of the dispatch and exponentiation theorems *)
 Example C16_dispatch_witnesses :
